@@ -31,10 +31,13 @@ theorem scalarOut_leaf (o : Oracle) (tn : String) (v r : PyVal) (h : scalarOut o
   · exact (C10.boolean_out_wire o v r h).1
   · exact (C10.id_out_wire o v r h).1
   · rename_i h1 h2 h3 h4 h5
-    split at h
-    · rename_i hok; cases h
-      split <;> first | (exact absurd rfl ‹_›) | exact hok
-    · cases h
+    have hc : customOk r = true := by
+      by_cases hn : isNullMe v = true
+      · simp [hn] at h; subst h; simp [customOk, isJsonKind]
+      · by_cases hk : customOk v = true
+        · simp [hn, hk] at h; subst h; exact hk
+        · simp [hn, hk] at h
+    split <;> first | (exact absurd rfl ‹_›) | exact hc
 
 theorem catchField_ok (nn : Bool) (nodes : List Selection) (p : List PathSeg) (r : Except Exn PyVal) (st : St) (x : PyVal)
     (h : (catchField nn nodes p (r, st)).1 = .ok x) : r = .ok x ∨ (x = .none ∧ nn = false) := by
